@@ -46,8 +46,14 @@ SIZE_MAP = {
 }
 
 
-def path_of(letter):
-    return "/ws/%s.lua" % letter
+# contents with functions: signatures / return docs have property entries of their own, which the spec's property
+# slot (descriptions of types) does not count; the property sizes of such workspaces are compared by `same` only
+FUNC_CONTENTS = {"ObjDef", "ObjBar1", "ObjBar2", "UseObj"}
+
+
+def path_of(letter, dirs=None):
+    """path of the file with this letter; `dirs` = the spec's root layout of the workspace (letter -> root dir)"""
+    return "%s/%s.lua" % ((dirs or {}).get(letter, "/ws"), letter)
 
 
 def real_sizes(abstract):
@@ -61,17 +67,22 @@ def real_sizes(abstract):
 def model_of(step):
     """abstract expected state of the spec -> the `model` object understood by vh_analysisdb"""
     obs = step["obs"]
+    dirs = step.get("dirs")
+    path_of = lambda letter: globals()["path_of"](letter, dirs)
     return {
         "desc": {t: (None if d == "<no-type>" else d) for t, d in obs["desc"].items()},
         "typelocs": {t: [path_of(p) for p in ps] for t, ps in obs["typelocs"].items()},
         "globals": {g: [path_of(p) for p in ps] for g, ps in obs["globals"].items()},
         "members": {t: [[m[0], path_of(m[1])] for m in ms] for t, ms in obs["members"].items()},
+        "gtype": {g: [[path_of(m[0]), m[1]] for m in ms] for g, ms in obs.get("gtype", {}).items()},
+        "gmembers": {g: [[m[0], path_of(m[1])] for m in ms] for g, ms in obs.get("gmembers", {}).items()},
         "modules": {r: (None if p == "<none>" else path_of(p)) for r, p in obs["modules"].items()},
         "supers": {t: sorted(ss) for t, ss in obs["supers"].items()},
         "inherit": {t: [[m[0], path_of(m[1])] for m in ms] for t, ms in obs.get("inherit", {}).items()},
         "gen": {t: list(ps) for t, ps in obs["gen"].items()},
         "ops": {t: {mm: [[o[0], path_of(o[1])] for o in seq] for mm, seq in per.items()} for t, per in obs["ops"].items()},
-        "sizes": real_sizes(step["sizes"]),
+        "sizes": real_sizes({k: v for k, v in step["sizes"].items()
+                             if not (k.startswith("property_") and FUNC_CONTENTS & set(step["files"].values()))}),
     }
 
 
@@ -142,7 +153,7 @@ def to_case(cid, hist, texts, prop):
         if prop == "C08" and op in ("load", "reindex"):
             st["fresh"] = True      # the start must be consistent: equal to a fresh analysis
         steps.append(st)
-    return {"id": cid, "requires": ["a", "b", "c"], "steps": steps}
+    return {"id": cid, "requires": ["a", "b", "c", "d"], "steps": steps}
 
 
 def describe(hist):
@@ -160,15 +171,20 @@ def describe(hist):
 
 
 def gen_path(p):
-    p = re.sub(r"/ws/[abcd]\.lua", "*", p)
+    p = re.sub(r"/(ws|liba|libb)/[abcd]\.lua", "*", p)
     p = re.sub(r"/\d+(?=/|$)", "/#", p)
     return p.strip("/")
 
 
-def classify_same(diffs, full):
+def classify_same(diffs, full, model_matches=False):
     """C08: signature per differing dump path"""
     sigs = set()
     paths = [d[0] for d in diffs]
+    # the spec's KF_Migr (members of a global path are listed under the class of the global only by the analysis of
+    # the binding file): applies when the model predicts the deviation AND the real member lists are exactly the
+    # ones the model predicts for this step
+    if "migr" in full["dev"] and model_matches:
+        return {"C08/global-path-member-not-remigrated/members-of-the-class"}
     glob_first = any(re.fullmatch(r"/globals/[^/]+/first", p) for p in paths)
     for p in paths:
         if re.fullmatch(r"/types/[^/]+/desc", p):
@@ -193,15 +209,21 @@ def classify_same(diffs, full):
 def run(ctx, prop):
     # q5/t5: generic partial class (header in one file, header-less re-declaration in another), generic alias, a user
     # that instantiates both; q6/t6: operators / call overload of one class declared in two files and a user
-    tier = {"C08": (["AnalysisDb_q", "AnalysisDb_q2", "AnalysisDb_q3", "AnalysisDb_q4", "AnalysisDb_q5", "AnalysisDb_q6"],
-                    ["AnalysisDb_t", "AnalysisDb_t2", "AnalysisDb_t3", "AnalysisDb_t4", "AnalysisDb_t5", "AnalysisDb_t6"]),
+    # q7/t7 (second seeded round): a global instance whose class and inferred binding live in one file and whose
+    # member `bar` is defined in two other files (members of a global path migrated to the class)
+    tier = {"C08": (["AnalysisDb_q", "AnalysisDb_q2", "AnalysisDb_q3", "AnalysisDb_q4", "AnalysisDb_q5", "AnalysisDb_q6", "AnalysisDb_q7"],
+                    ["AnalysisDb_t", "AnalysisDb_t2", "AnalysisDb_t3", "AnalysisDb_t4", "AnalysisDb_t5", "AnalysisDb_t6", "AnalysisDb_t7"]),
             "C09": (["AnalysisDb_c09_q", "AnalysisDb_c09_q2"],
                     ["AnalysisDb_c09_t", "AnalysisDb_c09_t2", "AnalysisDb_c09_t3"]),
             # q3/t4: partial class whose inheritance edge lives in one declaring file only, base class, user of the
             # inherited field (after seeded review)
-            "C10": (["AnalysisDb_c10_q", "AnalysisDb_c10_q2", "AnalysisDb_c10_q3"],
-                    ["AnalysisDb_c10_t", "AnalysisDb_c10_t2", "AnalysisDb_c10_t3", "AnalysisDb_c10_t4"])}[prop]
+            # q4/t5 (second seeded round): a `---@meta` file and ordinary files defining the same member of the class
+            # table declared in a fourth file, every id order, removal of every file
+            "C10": (["AnalysisDb_c10_q", "AnalysisDb_c10_q2", "AnalysisDb_c10_q3", "AnalysisDb_c10_q4"],
+                    ["AnalysisDb_c10_t", "AnalysisDb_c10_t2", "AnalysisDb_c10_t3", "AnalysisDb_c10_t4", "AnalysisDb_c10_t5"])}[prop]
     cfgs = ctx.pick(*tier)
+    if os.environ.get("ADB_ONLY"):      # development aid: restrict to the named configurations
+        cfgs = os.environ["ADB_ONLY"].split(",")
     results = run_tlc_many(ctx, cfgs, workers_each=ctx.pick(1, 2), timeout=ctx.pick(900, 2400))
     vlib.build(["vh-analysis"])
     all_hists = []
@@ -268,7 +290,7 @@ def run(ctx, prop):
                 if "same" in s:
                     obligations += 1
                     if s["same"]:
-                        for sig in classify_same(s["same"], full):
+                        for sig in classify_same(s["same"], full, model_matches=not s.get("model")):
                             add(sig, cid, i, s["same"][:6])
                 if s.get("fresh"):
                     # the start of the history is not consistent: not a C08 verdict, but worth knowing
